@@ -15,6 +15,10 @@ S2C: (a) every TLC wire is cut at EVERY byte offset (0..n) and the peer closes t
      future); close_all_connections() must complete within the settle.
 C2S: random request streams x random segmentation x random placement of peer close / answer / body
      timeout / shutdown, recorded from the real server and validated by TLC (Trace_HttpReader).
+
+Binding demonstrated during development: on the tree without fix F30 the `shutdown` paths of the trees diverge; the seeded
+edit M3 (`need_delegate_close = False` dropped before finish) yields end "FC" in s2c-eof, s2c-tree and in TLC-rejected
+traces (16 violations) (notes/httpr.md).
 """
 import random
 
@@ -95,7 +99,7 @@ def record_random(args):
 
 def run(ctx):
     # 1. model checking
-    H.vacuity(ctx, dict(MC_Q, RLs="{1}", HOSTs="{1}", FRs="{2}", FR2s="{1}", BODYs="{2}", TAILs="{2}", Dev=0, Sizes="{30}"),
+    H.vacuity(ctx, dict(MC_Q, RLs="{1}", HOSTs="{1}", FRs="{2}", FR2s="{1}", BODYs="{2}", TAILs="{2}", Dev=0, Sizes="{47}"),
               ["arrive", "eof", "respond", "timeout", "shutdown"])
     mcq = dict(MC_Q)
     if not ctx.quick:
